@@ -145,7 +145,9 @@ def differing(seed: int, n: int):
 
     from . import encodecorr2
 
-    outs = encodecorr.generate_and_compare(seed, n)
+    # + documents whose header rows carry their own widths, handed over in the other container spellings the
+    # constructors accept (tuple / single object; texts as str / list / tuple / frame)
+    outs = encodecorr.generate_and_compare(seed, n, spelled=max(8, n // 4))
     for o in outs:
         o["path"] = "single"
     outs += encodecorr2.generate_and_compare(seed, max(1, n // 2), paths=("multi",))     # lists of 1..4 sections
@@ -159,11 +161,18 @@ def run_cross(fam, res: common.Result):
     outs, bad = differing(seed, n)
     for o in outs:
         res.count(f"cross-encoder:{o.get('path', 'single')}:{o['verdict']}")
+        if o["spec"].get("spelling"):
+            res.count(f"cross-encoder:spelled-containers:{o['verdict']}")
     res.extra["cross_encoder"] = dict(documents=len(outs), differing=len(bad),
                                       note="documents of the whole-encoder correspondence class; the property's oracle "
                                            "and projection are evaluated on the real and the model text where they "
                                            "differ (harness/crosscorr.py)")
     res.corr_checked += sum(1 for o in outs if o["verdict"] in ("agree", "both-error"))
+    for o in outs:
+        if o["verdict"] == "state-outside-model":
+            res.corr_checked += 1
+            res.disagree(dict(spec=o["spec"], info=o.get("info", {}), cross=True, path=o.get("path", "single")),
+                         f"{fam.prop} cross-encoder: {o['why']}")
     if not bad:
         return
     verdicts = _pool(_judge, [(fam, o["spec"], o["info"], o["model"]["text"], o["real"]) for o in bad])
